@@ -133,6 +133,9 @@ type memReadSeekCloser struct{ *bytes.Reader }
 
 func (memReadSeekCloser) Close() error { return nil }
 
+// ErrSourceUnreadable is what a member with FailOpen returns instead of its content.
+var ErrSourceUnreadable = errors.New("source cannot be opened (injected)")
+
 func memberSource(ms []Member) func() (config.FileConfig, error) {
 	i := 0
 	return func() (config.FileConfig, error) {
@@ -156,6 +159,9 @@ func memberSource(ms []Member) func() (config.FileConfig, error) {
 		}
 		return config.FileConfig{
 			GetFile: func() (io.ReadSeekCloser, error) {
+				if m.FailOpen {
+					return nil, ErrSourceUnreadable
+				}
 				if FileBackedSources != "" {
 					// what the CLI passes: an *os.File
 					f, err := os.CreateTemp(FileBackedSources, "src-*")
@@ -364,6 +370,14 @@ func (r *Runner) Do(s Step) (res Res) {
 				res.Infos = append(res.Infos, *entryOf(path.Join(observe.Clean(s.Path), fi.Name()), fi))
 			}
 		})
+		if res.Hang == nil && res.Err != nil {
+			// the other listing method is refused just the same (and leaves nothing held)
+			call(func() {
+				if _, err := h.Readdirnames(s.N); err == nil {
+					res.Err = nil
+				}
+			})
+		}
 		call(func() { _ = h.Close() })
 	case "reopen":
 		for i, sl := range r.Slots {
